@@ -172,10 +172,17 @@ class IsoTpStateMachine:
 
                 if m := self.can_normal_frame_re.match(cur_line.strip()):
                     # frame_interface = m.group(1)
-                    frame_id = int(m.group(2), 16)
+                    try:
+                        frame_id = int(m.group(2), 16)
 
-                    frame_data_formatted = m.group(3).strip()
-                    frame_data = bytearray([int(x, 16) for x in frame_data_formatted.split()])
+                        frame_data_formatted = m.group(3).strip()
+                        frame_data = bytearray([int(x, 16) for x in frame_data_formatted.split()])
+                    except ValueError:
+                        # e.g., a line without CAN ID
+                        print(
+                            f"Warning: unrecognized frame format: '{cur_line.strip()}'",
+                            file=sys.stderr)
+                        continue
 
                     for tmp in self.decode_rx_frame(frame_id, frame_data):
                         yield tmp
